@@ -221,6 +221,7 @@ type badgeInfo struct {
 	user  sigs.Account
 	dev   sigs.Account
 	chain string
+	prov  string // provider the badge is mostly used with (so that the allocation is actually approached)
 }
 
 var _ = badgeInfo{}
@@ -235,6 +236,9 @@ func (s *Sim) opBadgeRelay() {
 	if bi == nil {
 		c := s.Cons[s.R.Intn(len(s.Cons))]
 		dev := c.Devs[s.R.Intn(len(c.Devs))]
+		if s.R.Intn(2) == 0 {
+			dev = c.Acc // the subscription owner is always a developer of its admin project
+		}
 		user := s.newAccount(10)
 		alloc := uint64(50 + s.R.Intn(600))
 		b := pairingtypes.CreateBadge(alloc, cur, user.Addr, s.TS.Ctx.BlockHeader().ChainID, nil)
@@ -254,9 +258,21 @@ func (s *Sim) opBadgeRelay() {
 		return
 	}
 	prov := paired[s.R.Intn(len(paired))]
-	cu := uint64(1 + s.R.Intn(int(bi.badge.CuAllocation)))
-	if s.R.Intn(6) == 0 {
+	if bi.prov != "" && s.R.Intn(4) != 0 {
+		for _, p := range paired {
+			if p == bi.prov {
+				prov = p
+			}
+		}
+	}
+	bi.prov = prov
+	// 35-70% of the allocation per relay: the second or third relay of a (badge, provider) crosses it
+	cu := bi.badge.CuAllocation*uint64(35+s.R.Intn(36))/100 + 1
+	switch s.R.Intn(6) {
+	case 0:
 		cu = bi.badge.CuAllocation + uint64(s.R.Intn(3))
+	case 1:
+		cu = uint64(1 + s.R.Intn(int(bi.badge.CuAllocation)))
 	}
 	rs := s.newSession(bi.user, prov, bi.chain, int64(bi.badge.Epoch), cu)
 	b := *bi.badge
